@@ -87,6 +87,20 @@ Theorem source_shape_is_modelled :
   v2_lazymap_shape = LazyMapShape.modelled_shape /\ root_lazymap_shape = LazyMapShape.modelled_shape.
 Proof. exact LazyMapShape.source_shape_is_modelled. Qed.
 
+(* Two facts of that shape on their own.  A waiter - LoadOrStore after yield point 2, Load after yield point 7 - first
+   calls Wait (directly: not deferred, not in a new goroutine) and only then evaluates the return statement that reads
+   the placeholder's result field: the model's PWait step returns the field as it is after Done. *)
+Theorem waiters_read_result_after_wait : forall sh, In sh LazyMapShape.shapes ->
+  LazyMapShape.waits_then_reads 2 (nth 0 sh []) /\ LazyMapShape.waits_then_reads 7 (nth 1 sh []).
+Proof. exact LazyMapShape.waiters_read_result_after_wait. Qed.
+
+(* Store declares a flag false, its closure (yield point 8) sets that flag, and the overwrite (yield point 9) is guarded
+   by the negation of that flag alone: the model's Store goes to PRaw exactly when its own closure did not run, whatever
+   the values are. *)
+Theorem store_overwrites_iff_its_closure_did_not_run : forall sh, In sh LazyMapShape.shapes ->
+  nth 2 sh [] = LazyMapShape.store_shape.
+Proof. exact LazyMapShape.store_overwrites_iff_its_closure_did_not_run. Qed.
+
 (* Non-vacuity: goroutine 0 wins LoadOrStore(0, 11); goroutine 1's Store(0, 21) finds the placeholder, waits, then
    overwrites; its Load sees 21; f ran once; every call completed. *)
 Example c18_nonvacuous :
@@ -105,3 +119,5 @@ Print Assumptions no_deadlock.
 Print Assumptions linearizable.
 Print Assumptions lin_point_inside_interval.
 Print Assumptions source_shape_is_modelled.
+Print Assumptions waiters_read_result_after_wait.
+Print Assumptions store_overwrites_iff_its_closure_did_not_run.
